@@ -65,11 +65,21 @@ def n_opt_ids(table):
     return 1 + max([e['act'][1] for e in table if e['act'][0] == 'opti'] + [0])
 
 
-def run_real(ctx, table, calls, st, sv, valid_on=True, ops_rng=None):
+def scripted_metric(holder, name, ct, cv, torch):
+    def f(*args):
+        s = holder['s']
+        ph = s._phase
+        idx = len(s.metrics_history[ph + '__' + name])
+        return torch.tensor(float((ct if ph == 'train' else cv)[idx]))
+    return f
+
+
+def run_real(ctx, table, calls, st, sv, valid_on=True, ops_rng=None, cscripts=None):
     """Returns (per-call list of epoch records, final global epoch, error string or None)."""
     CB, torch = ctx.CB, ctx.torch
     holder = {}
-    solver = ctx.solver(valid_on=valid_on)
+    metrics = {name: scripted_metric(holder, name, ct, cv, torch) for name, (ct, cv) in (cscripts or {}).items()}
+    solver = ctx.solver(valid_on=valid_on, metrics=metrics or None)
     holder['s'] = solver
     losses = [scripted_loss(holder, st, sv) for _ in range(n_loss_ids(table))]
     solver._set_loss_fn(losses[0])
@@ -150,12 +160,13 @@ def run_real(ctx, table, calls, st, sv, valid_on=True, ops_rng=None):
     return out, solver.global_epoch, None
 
 
-def doc_sim(table, calls, st, sv, valid_on=True):
+def doc_sim(table, calls, st, sv, valid_on=True, cscripts=None):
     """The documented behaviour: callbacks run in order after every epoch, each runs its action
     iff its documented predicate holds; stop ends the fit after the epoch in which it fired;
     set-once actions take effect at their first firing, or at every firing with reset."""
     g, l, stop, loss, opt, nopt = 0, 0, False, 0, 0, 0
     ht, hv = [], []
+    custom = {name: ([], []) for name in (cscripts or {})}
     called = [False] * len(table)
     out = []
     for (mx, mask) in calls:
@@ -168,12 +179,16 @@ def doc_sim(table, calls, st, sv, valid_on=True):
             ht.append(st[g])
             if valid_on:
                 hv.append(sv[g])
+            for name, (ct, cv) in (cscripts or {}).items():
+                custom[name][0].append(ct[g])
+                if valid_on:
+                    custom[name][1].append(cv[g])
             g += 1
             fired = []
             for j, ent in enumerate(table):
                 if not (j < len(mask) and mask[j]):
                     continue
-                if not T.doc(ent['tree'], l, g, mx, ht, hv):
+                if not T.doc(ent['tree'], l, g, mx, ht, hv, custom):
                     continue
                 fired.append(j)
                 a = ent['act']
@@ -212,16 +227,19 @@ def coq_erec(r):
     return f'mkE {T.z(r["l"])} {T.z(r["g"])} {T.z(r["m"])} {fired} {T.coq_bool(r["stop"])} {T.z(r["loss"])} {T.z(r["opt"])}'
 
 
-def coq_case(table, calls, st, sv, valid_on, observed):
+def coq_case(table, calls, st, sv, valid_on, observed, cscripts=None):
     n = sum(max(0, mx) for mx, _ in calls)
     feed = T.coq_list([f'({T.z(st[i])}, {T.z(sv[i])})' for i in range(n)])
     cs = T.coq_list([f'({T.z(mx)}, {T.coq_list([T.coq_bool(b) for b in mask])})' for mx, mask in calls])
     cbs = T.coq_list([f'mkCb {T.to_coq(e["tree"])} {coq_action(e["act"])} false' for e in table])
     obs = T.coq_list([T.coq_list([coq_erec(r) for r in recs]) for recs in observed])
+    if cscripts:
+        cf = T.coq_list([f'("{name}"%string, ' + T.coq_list([f'({T.z(ct[i])}, {T.z(cv[i])})' for i in range(n)]) + ')' for name, (ct, cv) in cscripts.items()])
+        return f'erecss_eqb (fit_seq_recs_c {feed} {cf} {T.coq_bool(valid_on)} {cs} 0 0 {cbs}) {obs}'
     return f'erecss_eqb (fit_seq_recs {feed} {T.coq_bool(valid_on)} {cs} 0 0 {cbs}) {obs}'
 
 
-PREAMBLE = ('From Coq Require Import ZArith List Bool.\nFrom ND.model Require Import Callbacks.\n'
+PREAMBLE = ('From Coq Require Import String ZArith List Bool.\nFrom ND.model Require Import Callbacks.\n'
             'Import ListNotations.\nOpen Scope Z_scope.\n')
 
 
